@@ -274,6 +274,7 @@ class _State:
         self.meta = None
         self.skipped = False
         self.stopped = False
+        self.stopped_by_sat = False
         self.t0 = time.time()
         self.t1 = None
         self.first = True
@@ -282,12 +283,13 @@ class _State:
         self.queue = [()]
         self.recs, self.outcomes, self.unsupported, self.paths = [], {}, [], 0
         self.dirty = False
+        self.stopped_by_sat = False      # a hit found while the write set was still growing does not count
         self.round += 1
         self.first = True
 
     @property
     def done(self):
-        return self.inflight == 0 and (not self.queue or self.stopped)
+        return self.inflight == 0 and (not self.queue or self.stopped or self.stopped_by_sat)
 
 
 def run_jobs(check: Check, jobs, repo_root, known, timeout_ms, canaries):
@@ -302,7 +304,7 @@ def run_jobs(check: Check, jobs, repo_root, known, timeout_ms, canaries):
     max_paths = int(os.environ.get("VERIF_MAX_PATHS", "6000"))
 
     def next_task(st: _State):
-        if st.stopped or not st.queue or st.dirty:
+        if st.stopped or st.stopped_by_sat or not st.queue or st.dirty:
             return None
         n = 1 if st.first else min(len(st.queue), 3)
         st.first = False
@@ -344,7 +346,7 @@ def run_jobs(check: Check, jobs, repo_root, known, timeout_ms, canaries):
             st.stopped = True
         if st.ci is not None and not st.dirty and \
                 any(x.verdict == "sat" and not x.known_explained for x in r["recs"]):
-            st.stopped = True                     # a canary only needs one failing obligation
+            st.stopped_by_sat = True              # a canary only needs one failing obligation
         if st.dirty and st.inflight == 0:
             if st.round >= 8:
                 st.unsupported.append("loop write-set inference did not converge")
